@@ -795,6 +795,24 @@ func (e *EvalCtx) call(n *XNode) Val {
 		need(1)
 		return S{app("pow2", e.evalS(args[0]).T), intT}
 	}
+	// predicate macro of the contract files
+	for _, pk := range []string{e.pkg, "ast", "hsms", "sml"} {
+		if pr := e.f.s.P.Contracts.Preds[pk+"."+name]; pr != nil {
+			if len(args) != len(pr.Params) {
+				e.fail("predicate %s expects %d arguments", name, len(pr.Params))
+			}
+			bn, err := parseXExpr(pr.Body.Text)
+			if err != nil {
+				e.fail("predicate %s: %v", name, err)
+			}
+			env := map[string]Val{}
+			for i, prm := range pr.Params {
+				env[prm.Name] = e.eval(args[i])
+			}
+			sub := &EvalCtx{f: e.f, env: env, heap: e.heap, old: e.old, bound: e.bound, pkg: pr.Pkg, where: e.where + " [predicate " + name + "]", neg: e.neg, nopol: e.nopol}
+			return sub.eval(bn)
+		}
+	}
 	// uninterpreted prelude predicates shared with stdlib contracts
 	if up, ok := uninterp[name]; ok {
 		if len(args) != len(up.args) {
